@@ -292,6 +292,29 @@ pub fn run(ctx: &mut Ctx) {
         emit_conn(ctx, &procs, &C1, &[rs[1].clone(), rs[0].clone(), rs[2].clone()]);
     }
 
+    // 1b. the sender's last segment carries FIN (as the last segment of a short request or response does);
+    //     every arrival order of the three segments of each direction
+    {
+        let mut cs = segments(req0, &[16, 32], 1000, true);
+        let mut rs = segments(res0, &[17, 32], 5000, false);
+        if let Some(l) = cs.last_mut() {
+            l.flags |= 0x01;
+        }
+        if let Some(l) = rs.last_mut() {
+            l.flags |= 0x01;
+        }
+        let cs_plain = segments(req0, &[16, 32], 1000, true);
+        for perm in permutations(rs.len()) {
+            let mut ds = cs_plain.clone();
+            ds.extend(perm.iter().map(|&i| rs[i].clone()));
+            emit_conn(ctx, &procs, &C1, &ds);
+        }
+        for perm in permutations(cs.len()) {
+            let ds: Vec<Data> = perm.iter().map(|&i| cs[i].clone()).collect();
+            emit_conn(ctx, &procs, &C1, &ds);
+        }
+    }
+
     // 2. exhaustive: short exchange, every set of <= 2 cuts (quick) / <= 3 cuts (thorough) x every permutation,
     //    in the client direction with the server in order, and vice versa
     {
